@@ -23,13 +23,20 @@ Definition nonconst (p : gparam) : bool := match gp_kind p with KConst => false 
 (* model::includes(sig, arg) for a one-token generic argument *)
 Definition includes (sig : list string) (p : gparam) : bool := existsb (String.eqb (gp_name p)) sig.
 
+(* ImplWork::substitute_args_type_and_return_type, which process_met runs BEFORE GenWork::retain: every `Self` in a parameter type
+   or in the return type is replaced by the actor type of the impl (`Self ::` by its turbofish form, which has the same
+   identifier / lifetime tokens).  [self_ty] = tokens of the impl's self type, e.g. ["A"; "<"; "T"; ","; "N"; ">"].
+   So a `Self` in a selected method's signature counts as a use of every parameter the self type names. *)
+Definition subst_self (self_ty sig : list string) : list string :=
+  flat_map (fun t => if String.eqb t "Self" then self_ty else [t]) sig.
+
 (* GenWork::retain *)
 Definition retain (hm : list gparam) (sig : list string) : list gparam := filter (fun p => negb (includes sig p)) hm.
 
 (* process_met: only reference methods without local generics call retain *)
-Definition step_retain (hm : list gparam) (m : meth) : list gparam :=
+Definition step_retain (self_ty : list string) (hm : list gparam) (m : meth) : list gparam :=
   match m_kind m with
-  | MRef => if m_localgen m then hm else retain hm (m_sig m)
+  | MRef => if m_localgen m then hm else retain hm (subst_self self_ty (m_sig m))
   | _ => hm
   end.
 
@@ -57,21 +64,24 @@ Definition get_mod_gen (params hm : list gparam) (is_full : bool) : mod_gen :=
        mg_phantom := enumerate 0 (map gp_name private) |}.
 
 (* GenWork::new followed by process_impl and get_mod_gen; [hm0] = iteration order of the fresh map *)
-Definition impl_gen (params hm0 : list gparam) (ms : list meth) : mod_gen :=
-  get_mod_gen params (fold_left step_retain ms hm0) (full ms).
+Definition impl_gen (params : list gparam) (self_ty : list string) (hm0 : list gparam) (ms : list meth) : mod_gen :=
+  get_mod_gen params (fold_left (step_retain self_ty) ms hm0) (full ms).
 
 (* ---- the short declarative spec: everything in declaration order ---- *)
-Definition used_by (ms : list meth) (p : gparam) : bool :=
-  existsb (fun m => match m_kind m with MRef => negb (m_localgen m) && includes (m_sig m) p | _ => false end) ms.
-Definition unused (params : list gparam) (ms : list meth) : list gparam :=
-  filter (fun p => nonconst p && negb (used_by ms p)) params.
-Definition spec_gen (params : list gparam) (ms : list meth) : mod_gen :=
-  get_mod_gen params (unused params ms) (full ms).
+Definition used_by (self_ty : list string) (ms : list meth) (p : gparam) : bool :=
+  existsb (fun m => match m_kind m with MRef => negb (m_localgen m) && includes (subst_self self_ty (m_sig m)) p | _ => false end) ms.
+Definition unused (params : list gparam) (self_ty : list string) (ms : list meth) : list gparam :=
+  filter (fun p => nonconst p && negb (used_by self_ty ms p)) params.
+Definition spec_gen (params : list gparam) (self_ty : list string) (ms : list meth) : mod_gen :=
+  get_mod_gen params (unused params self_ty ms) (full ms).
 
 (* ---- the code before fix fdc5b8f: PhantomData fields enumerated in HashMap iteration order ---- *)
-Definition impl_gen_old (params hm0 : list gparam) (ms : list meth) : mod_gen :=
-  let hm := fold_left step_retain ms hm0 in
+Definition impl_gen_old (params : list gparam) (self_ty : list string) (hm0 : list gparam) (ms : list meth) : mod_gen :=
+  let hm := fold_left (step_retain self_ty) ms hm0 in
   if full ms then {| mg_script := map gp_name params; mg_private := []; mg_phantom := [] |}
   else {| mg_script := map gp_name (filter (fun p => negb (mem_name (gp_name p) hm)) params);
           mg_private := map gp_name (filter (fun p => mem_name (gp_name p) hm) params);
           mg_phantom := enumerate 0 (map gp_name hm) |}.
+
+(* ---- a hypothetical reordering of process_met: retain BEFORE the Self substitution (Self is then an opaque token) ---- *)
+Definition impl_gen_retain_first (params hm0 : list gparam) (ms : list meth) : mod_gen := impl_gen params ["Self"] hm0 ms.
